@@ -457,6 +457,35 @@ def m_pathless_recreate(f, case, viol):
     return bool(paths) and all(any(_unconf(p) == c or _unconf(p).startswith(c + "/") for c in cand) for p in paths)
 
 
+def m_reordered_recreate(f, case, viol):
+    """mechanism (C14): on a side with stable ids the user deletes P and makes a new object at P before the engine is quiet, and the
+    feed delivers the two events out of order (permute / hold) or several times (dup / replay): the engine meets the new object
+    while the old entry still claims P, takes it for a conflict with its own peer copy, and parks the user's new file as
+    'P.conflicted' (or re-creates the old one) - in a one-sided history.  Needs a reordering/duplicating mangling enabled, an
+    id-stable origin, 'delete|rmtree P ... create|mkdir P' by the origin's user without a quiet point; every differing path is P
+    (possibly decorated) or below."""
+    rates = case.get("rates") or {}
+    flav = str(case.get("cfg", {}).get("flavour", ""))
+    origin = case.get("origin")
+    if origin is None or len(flav) < 2 or flav[origin] == "p":
+        return False
+    if not any(rates.get(k) for k in ("permute", "hold", "dup", "replay", "stale")):
+        return False
+    plan = case.get("plan", [])
+    cand = set()
+    for i, u in enumerate(plan):
+        if not (u and u[0] == "U" and u[1] == origin and u[2] in ("delete", "rmtree", "rmdir")):
+            continue
+        for j in range(i + 1, len(plan)):
+            v = plan[j]
+            if _quiet(v):
+                break
+            if v and v[0] == "U" and v[1] == origin and v[2] in ("create", "mkdir") and (v[3] == u[3] or v[3].startswith(u[3] + "/")):
+                cand.add(v[3])
+    paths = _diff_paths(viol)
+    return bool(paths) and all(any(_unconf(p) == c or _unconf(p).startswith(c + "/") for c in cand) for p in paths)
+
+
 def m_request_stale_entry(f, case, viol):
     """mechanism (C20): a remote file P is deleted and re-created, and the application requests P (by path or id): the request is
     attached to the entry of the deleted file, the new file arrives as a different entry that is not in the request set and is
@@ -686,7 +715,7 @@ def m_moved_out_race(f, case, viol):
     return _paths_related_to_moves(viol, ok, case)
 
 
-MATCHERS = {"rerequest_masks_remote_edit": m_rerequest_masks_remote_edit, "smart_intake_fault": m_smart_intake_fault, "content_revert": m_content_revert, "conflicted_blocks_rmdir": m_conflicted_blocks_rmdir, "dup_folder_discard": m_dup_folder_discard, "missing_resurrect": m_missing_resurrect, "pathless_recreate": m_pathless_recreate, "declined_conflict": m_declined_conflict, "mock_path_ci": m_mock_path_ci, "request_stale_entry": m_request_stale_entry, "late_parent_event": m_late_parent_event, "crash_dup_entry": m_crash_dup_entry, "boundary_folder_move": m_boundary_folder_move, "moved_out_race": m_moved_out_race, "crash_rename_over": m_crash_rename_over, "event_exc": m_event_exc, "half_transfer": m_half_transfer, "history": m_history, "rename_race": m_rename_race, "dirdelete_race": m_dirdelete_race}
+MATCHERS = {"reordered_recreate": m_reordered_recreate, "rerequest_masks_remote_edit": m_rerequest_masks_remote_edit, "smart_intake_fault": m_smart_intake_fault, "content_revert": m_content_revert, "conflicted_blocks_rmdir": m_conflicted_blocks_rmdir, "dup_folder_discard": m_dup_folder_discard, "missing_resurrect": m_missing_resurrect, "pathless_recreate": m_pathless_recreate, "declined_conflict": m_declined_conflict, "mock_path_ci": m_mock_path_ci, "request_stale_entry": m_request_stale_entry, "late_parent_event": m_late_parent_event, "crash_dup_entry": m_crash_dup_entry, "boundary_folder_move": m_boundary_folder_move, "moved_out_race": m_moved_out_race, "crash_rename_over": m_crash_rename_over, "event_exc": m_event_exc, "half_transfer": m_half_transfer, "history": m_history, "rename_race": m_rename_race, "dirdelete_race": m_dirdelete_race}
 
 
 def match_one(f, case, viol):
